@@ -298,7 +298,8 @@ def rule_py_extents_agree(out, pyr):
 def rule_py_time_counts_in_own_unit(out, pyr):
     rid = "PD2"
     out.rule(rid, "_binary.py: in a serializer whose dtype constant is a datetime64/timedelta64 with a unit, the integer count of a numpy value (`x.astype(np.int32/np.int64)`) is taken "
-                  "only from a value known to be in that unit: `x.astype(OWN_DTYPE).astype(int)` or on the true branch of `x.dtype == OWN_DTYPE`", 3)
+                  "only from a value known to be in that unit: `x.astype(OWN_DTYPE).astype(int)` or on the true branch of `x.dtype == OWN_DTYPE` (statement or conditional expression; "
+                  "module-level helpers are followed with their parameters bound)", 3)
     tree, rel = pyr.parse_py(out, "_binary.py")
     consts = {}
     for st in tree.body:
@@ -306,6 +307,82 @@ def rule_py_time_counts_in_own_unit(out, pyr):
             txt = ast.unparse(st.value)
             if "timedelta64" in txt or "datetime64" in txt:
                 consts[st.targets[0].id] = txt
+    module_funcs = {n.name: n for n in tree.body if isinstance(n, ast.FunctionDef)}
+
+    def is_int_type(e):
+        t = ast.unparse(e)
+        return bool(re.search(r"\bint(8|16|32|64)?\b|^['\"]i[48]['\"]$|\bint_\b", t))
+
+    def dtype_test(t, own):
+        """(expr whose dtype is compared with own, polarity for equality) or None"""
+        if isinstance(t, ast.Compare) and len(t.ops) == 1 and isinstance(t.ops[0], (ast.Eq, ast.NotEq)):
+            for x, y in ((t.left, t.comparators[0]), (t.comparators[0], t.left)):
+                if isinstance(x, ast.Attribute) and x.attr == "dtype" and isinstance(y, ast.Name) and y.id == own:
+                    return x.value, isinstance(t.ops[0], ast.Eq)
+        return None
+
+    def unit_known(e, known, own):
+        """e (environment already substituted) is known to be in the unit of `own`"""
+        if ast.unparse(e) in known:
+            return True
+        if isinstance(e, ast.Call) and isinstance(e.func, ast.Attribute) and e.func.attr == "astype" and e.args and isinstance(e.args[0], ast.Name) and e.args[0].id == own:
+            return True
+        if isinstance(e, ast.IfExp):
+            dt = dtype_test(e.test, own)
+            ka, kb = set(known), set(known)
+            if dt is not None:
+                (ka if dt[1] else kb).add(ast.unparse(dt[0]))
+            return unit_known(e.body, ka, own) and unit_known(e.orelse, kb, own)
+        return False
+
+    def analyse(cname, mname, fn, env0, own, value_roots, sites, depth=0):
+        mp = MiniPaths()
+        for items, oc in mp.paths(fn.body):
+            known = set()
+            env = dict(env0)
+            for it in items:
+                if it[0] == "guard":
+                    if it[1] is not None:
+                        t = _Subst(env).visit(copy.deepcopy(it[1]))
+                        dt = dtype_test(t, own)
+                        if dt is not None and dt[1] == it[2]:
+                            known.add(ast.unparse(dt[0]))
+                    continue
+                st = it[1]
+                for c in ast.walk(st):
+                    if not isinstance(c, ast.Call):
+                        continue
+                    # a module-level helper that receives the value: analysed with its parameters bound
+                    if isinstance(c.func, ast.Name) and c.func.id in module_funcs and depth < 2:
+                        h = module_funcs[c.func.id]
+                        hp = [a.arg for a in h.args.args]
+                        henv = {}
+                        for i, a in enumerate(c.args):
+                            if i < len(hp):
+                                henv[hp[i]] = _Subst(env).visit(copy.deepcopy(a))
+                        for kw in c.keywords:
+                            if kw.arg in hp:
+                                henv[kw.arg] = _Subst(env).visit(copy.deepcopy(kw.value))
+                        if any({x.id for x in ast.walk(v) if isinstance(x, ast.Name)} & value_roots for v in henv.values()):
+                            analyse(cname, mname + ">" + h.name, h, henv, own, value_roots, sites, depth + 1)
+                        continue
+                    if not (isinstance(c.func, ast.Attribute) and c.func.attr == "astype" and c.args):
+                        continue
+                    targ = _Subst(env).visit(copy.deepcopy(c.args[0]))
+                    if not is_int_type(targ):
+                        continue
+                    recv = _Subst(env).visit(copy.deepcopy(c.func.value))
+                    roots = {x.id for x in ast.walk(recv) if isinstance(x, ast.Name)}
+                    if not (roots & value_roots):
+                        continue  # not a value handed in by the caller
+                    ok = unit_known(recv, known, own)
+                    key = "%s.%s/count of %s" % (cname, mname, ast.unparse(recv))
+                    old = sites.get(key)
+                    if old is None or (old[0] and not ok):
+                        sites[key] = (ok, pyr.pos(rel, c))
+                if isinstance(st, ast.Assign) and len(st.targets) == 1 and isinstance(st.targets[0], ast.Name):
+                    _bind(env, st.targets[0], st.value)
+
     n = 0
     for cname, cls in pyr.classes(tree).items():
         init = pyr.methods(cls).get("__init__")
@@ -319,42 +396,8 @@ def rule_py_time_counts_in_own_unit(out, pyr):
             if mname == "__init__":
                 continue
             params = {a.arg for a in fn.args.args if a.arg != "self"}
-
-            def is_int_type(e):
-                t = ast.unparse(e)
-                return bool(re.search(r"\bint(8|16|32|64)?\b|^['\"]i[48]['\"]$|\bint_\b", t))
-            mp = MiniPaths()
             sites = {}
-            for items, oc in mp.paths(fn.body):
-                known = set()  # canonical expressions known to be in the own unit
-                env = {}
-                for it in items:
-                    if it[0] == "guard":
-                        t = it[1]
-                        if t is not None and isinstance(t, ast.Compare) and len(t.ops) == 1 and isinstance(t.ops[0], (ast.Eq, ast.NotEq)) and it[2] == isinstance(t.ops[0], ast.Eq):
-                            for x, y in ((t.left, t.comparators[0]), (t.comparators[0], t.left)):
-                                if isinstance(x, ast.Attribute) and x.attr == "dtype" and isinstance(y, ast.Name) and y.id == own:
-                                    known.add(canon(x.value, env))
-                        continue
-                    st = it[1]
-                    if isinstance(st, ast.Assign) and len(st.targets) == 1 and isinstance(st.targets[0], ast.Name):
-                        _bind(env, st.targets[0], st.value)
-                    for c in ast.walk(st):
-                        if not (isinstance(c, ast.Call) and isinstance(c.func, ast.Attribute) and c.func.attr == "astype" and c.args and is_int_type(c.args[0])):
-                            continue
-                        recv = _Subst(env).visit(copy.deepcopy(c.func.value))
-                        ok = False
-                        if isinstance(recv, ast.Call) and isinstance(recv.func, ast.Attribute) and recv.func.attr == "astype" and recv.args and isinstance(recv.args[0], ast.Name) and recv.args[0].id == own:
-                            ok = True
-                        elif ast.unparse(recv) in known:
-                            ok = True
-                        roots = {x.id for x in ast.walk(recv) if isinstance(x, ast.Name)}
-                        if not (roots & params):
-                            continue  # not a value handed in by the caller
-                        key = "%s.%s/count of %s" % (cname, mname, ast.unparse(c.func.value))
-                        old = sites.get(key)
-                        if old is None or (old[0] and not ok):
-                            sites[key] = (ok, pyr.pos(rel, c))
+            analyse(cname, mname, fn, {}, own, params, sites)
             for key, (ok, p) in sorted(sites.items()):
                 n += 1
                 out.check(ok, rid, key, p, "taken from a value in the unit of %s (cast or dtype test on the path)" % own,
@@ -413,9 +456,15 @@ def rule_py_flag_named_only_when_contained(out, pyr):
                   "`symbol & remaining == symbol` — decided by evaluating the conditions on the path for all 3-bit symbols and remainders, whatever their spelling", 1)
     tree, rel = pyr.parse_py(out, "_ndjson.py")
     cls = pyr.classes(tree).get("FlagsConverter")
-    fn = pyr.methods(cls).get("to_json") if cls else None
+    fn = None
+    if cls is not None:
+        # the method that decomposes a value into names: to_json, or the helper it delegates to
+        for mname, m in pyr.methods(cls).items():
+            if any(isinstance(n, ast.For) and "_value_to_name" in ast.unparse(n.iter) for n in ast.walk(m)) and \
+                    any(isinstance(c, ast.Call) and isinstance(c.func, ast.Attribute) and c.func.attr in ("append", "add", "insert") for c in ast.walk(m)):
+                fn = m
     if fn is None:
-        out.undecided(rid, "anchor/FlagsConverter.to_json", rel, "method not found")
+        out.undecided(rid, "anchor/FlagsConverter.to_json", rel, "no method of FlagsConverter loops over the declared symbols and appends names")
         return
     remaining = None
     for n in ast.walk(fn):
